@@ -65,3 +65,15 @@
 ; evunder(x, e): expression x is e or a sub-expression evaluated in the course of evaluating e
 (declare-fun subexpr (Val Val) Bool)
 (define-fun evunder ((x Val) (e Val)) Bool (or (= x e) (subexpr x e)))
+; (x-c09) keys stored in a frozen.Map[Value, any] are self-Equal (the analogue of the fmem axiom of 35_sets.smt2; ASSUMED)
+(assert (forall ((r Val) (k Val)) (! (=> (vmhas r k) (eq k k)) :pattern ((vmhas r k)))))
+; ---- (x-c09) rel.Names = frozen.Set[string]: abstract content of the tree root: nmhas(root, name), nmcard(root) ----
+; ASSUMED theory (finite sets of strings), like fmem/fcard for frozen.Set[Value]
+(declare-fun nmhas (Val Str) Bool)
+(declare-fun nmcard (Val) Int)
+(declare-fun nmany (Val) Str)
+(assert (forall ((r Val)) (! (>= (nmcard r) 0) :pattern ((nmcard r)))))
+(assert (forall ((r Val) (n Str)) (! (=> (= (nmcard r) 0) (not (nmhas r n))) :pattern ((nmcard r) (nmhas r n)))))
+(assert (forall ((r Val)) (! (=> (> (nmcard r) 0) (nmhas r (nmany r))) :pattern ((nmcard r)))))
+(assert (forall ((n Str)) (! (not (nmhas nilVal n)) :pattern ((nmhas nilVal n)))))
+(assert (= (nmcard nilVal) 0))
